@@ -84,20 +84,23 @@ def sample_values(e: dict, rnd: random.Random, n_random: int) -> list:
             [{"dt": [2000 + rnd.randrange(256), rnd.randint(1, 12), rnd.randint(1, 28), rnd.randrange(24), rnd.randrange(60),
                      rnd.randrange(60)]} for _ in range(n_random)]
     if ty == "EcoModeV1":
-        out = ["0d1e0e28ffc4ff1a", "0000173bff9cff7f", "0000173b0064ff7f", "3000300000640000"]
+        # day byte: 7 bits, or 0xff = every day (the whole byte travels)
+        out = ["0d1e0e28ffc4ff1a", "0000173bff9cff7f", "0000173b0064ff7f", "3000300000640000", "0000173bff9cffff", "01020304000a00ff",
+               "173b173b006400ff"]
         for _ in range(n_random):
             out.append(bytes([rnd.randrange(24), rnd.randrange(60), rnd.randrange(24), rnd.randrange(60)]).hex() +
                        (rnd.randint(-100, 100) & 0xFFFF).to_bytes(2, "big").hex() + rnd.choice(["00", "ff"]) +
-                       bytes([rnd.randrange(128)]).hex())
+                       bytes([rnd.choice([rnd.randrange(128), rnd.randrange(128), 0xFF])]).hex())
         return [{"bytes": list(bytes.fromhex(x))} for x in out]
     if ty in ("EcoModeV2", "PeakShavingMode"):
         out = ["0000173bff7fffce00640000", "0000173bff7f003200640000", "0000173bf97ffe0c00640fff", "300030000000006400640000",
-               "0000173bfc7f006400640000", "0300080006fefd12005fcfff"]
+               "0000173bfc7f006400640000", "0300080006fefd12005fcfff", "0000173bffffffce00640000", "0102030400ff000a00320fff"]
         for _ in range(n_random):
             st = rnd.choice([0, 1, 2, 3, 4, 5, 6])
             oo = rnd.choice([st, 255 - st])
             pw = rnd.randint(-100, 100) if st != 6 else rnd.randint(-1000, 1000)
-            out.append(bytes([rnd.randrange(24), rnd.randrange(60), rnd.randrange(24), rnd.randrange(60), oo, rnd.randrange(128)]).hex() +
+            out.append(bytes([rnd.randrange(24), rnd.randrange(60), rnd.randrange(24), rnd.randrange(60), oo,
+                              rnd.choice([rnd.randrange(128), rnd.randrange(128), 0xFF])]).hex() +
                        (pw & 0xFFFF).to_bytes(2, "big").hex() + rnd.randint(0, 100).to_bytes(2, "big").hex() +
                        rnd.choice([0, 0x0FFF, rnd.randrange(1, 0x0FFF)]).to_bytes(2, "big").hex())
         return [{"bytes": list(bytes.fromhex(x))} for x in out]
